@@ -749,3 +749,93 @@ def tolerance_branch_clamps(ctx):
             else:
                 ctx.bad(f'{f.qualname}:tolerance branch returns a clamped value', r, f'the within-tolerance branch returns `{src(v)}` unclamped: '
                         'a value just outside the limits is returned although it is not in the value set', f)
+
+
+@rule('C01.R3b', min_instances=1)
+def int_of_the_value_itself(ctx):
+    """IntRange.__call__: int() is applied to the offered value, not to its float probe (a float can not hold integers above 2**53)"""
+    m = ctx.m
+    ci, res = _analyse_class(m, 'IntRange')
+    ma = res.get('__call__')
+    if ma is None:
+        raise AnchorMissing('IntRange.__call__ not found')
+    f, p = ma.f, ma.param
+    ctx.analysed(f)
+    n = 0
+    for c in calls_in(f.node):
+        if dotted(c.func) == 'int' and c.args and not _in_lazy_branch(c):
+            n += 1
+            a = c.args[0]
+            floaty = False
+            for o in origins(a, f.node) if isinstance(a, ast.Name) and a.id != p else []:
+                if isinstance(o, ast.BinOp) and any(isinstance(x, ast.Constant) and isinstance(x.value, float) for x in (o.left, o.right)):
+                    floaty = True
+                if isinstance(o, ast.Call) and dotted(o.func) == 'float':
+                    floaty = True
+            ctx.check(not floaty, f'{f.qualname}:int() of the value itself', c, f'int({src(a)})',
+                      f'`{src(c)}` converts the float copy made for the whole-number test: integers above 2**53 (64 bit ids, Int64/UInt64 limits) '
+                      'silently change their value (2**63 - 1 becomes 2**63, which is even outside the declared range)', f)
+    if not n:
+        ctx.undecided(f'{f.qualname}:int() of the value itself', f.node, 'no int() conversion found', f)
+
+
+@rule('C01.R7b', min_instances=2)
+def limits_not_disabled_by_truthiness(ctx):
+    """a limit comparison must not be conjoined with a truthiness test of the limit itself (a limit of 0 is a limit)"""
+    m = ctx.m
+    for cname in CLASSES:
+        ci, res = _analyse_class(m, cname)
+        for meth in ('__call__', 'validate', 'check_type'):
+            ma = res.get(meth)
+            if ma is None:
+                continue
+            f = ma.f
+            for n in body_walk(f.node):
+                if isinstance(n, (ast.If, ast.IfExp)):
+                    for b in [x for x in ast.walk(n.test) if isinstance(x, ast.BoolOp) and isinstance(x.op, ast.And)]:
+                        props = {x.attr for v in b.values for x in ast.walk(v) if isinstance(x, ast.Attribute) and x.attr in LIMIT_PROPS and dotted(x.value) == 'self'}
+                        if not props or not any(isinstance(v, ast.Compare) and any(isinstance(o, (ast.Lt, ast.LtE, ast.Gt, ast.GtE)) for o in v.ops) for v in b.values):
+                            continue
+                        bare = [v for v in b.values if isinstance(v, ast.Attribute) and v.attr in LIMIT_PROPS and dotted(v.value) == 'self']
+                        ctx.analysed(f)
+                        ctx.check(not bare, f'{f.qualname}:limit test `{src(b)[:60]}` not disabled by truthiness', n, 'no truthiness conjunct',
+                                  f'`{src(b)}`: the comparison is skipped when `{src(bare[0]) if bare else ""}` is 0 - a type whose limit is 0 '
+                                  '(e.g. an array with maxlen == 0) accepts values of any size', f)
+
+
+@rule('C01.R9', min_instances=3)
+def range_test_is_nan_safe(ctx):
+    """validate() returns a number only on the TRUE branch of an accepting comparison lo <= value <= hi: every comparison
+    with NaN is false, so the rejecting form `if value < lo or value > hi: raise` lets NaN through"""
+    m = ctx.m
+    for cname in ('FloatRange', 'IntRange', 'ScaledInteger'):
+        f = m.method(f'{DT}.{cname}', 'validate', inherited=False)
+        ctx.analysed(f)
+        cfg = _CFG(f.node, m, f.module)
+        p = f.node.args.args[1].arg
+        rets = [n for n in body_walk(f.node) if isinstance(n, ast.Return) and n.value is not None]
+        if not rets:
+            raise AnchorMissing(f'no return in {cname}.validate')
+        # accepting tests: a chained / conjunctive comparison that bounds the value from both sides
+        acc = []
+        for t in cfg.nodes:
+            if t.kind != 'test':
+                continue
+            ops = [x for sub in ast.walk(t.ast) if isinstance(sub, ast.Compare) for x in compare_ops(sub)]
+            lower = any(op in ('<', '<=') and (r == p or r == 'result') for l, op, r in ops)
+            upper = any(op in ('<', '<=') and (l == p or l == 'result') for l, op, r in ops)
+            negated = isinstance(t.ast, ast.UnaryOp) or (isinstance(t.ast, ast.BoolOp) and isinstance(t.ast.op, ast.Or))
+            if lower and upper and not negated:
+                acc.append(t.id)
+        for r in rets:
+            ok = False
+            for t in acc:
+                on_t = cfg.reach([t], labels={'T'}, avoid=[t])
+                on_f = cfg.reach([t], labels={'F'}, avoid=[t])
+                ids = set(cfg.ids(r))
+                if ids & on_t and not (ids & on_f):
+                    ok = True
+            ctx.check(ok, f'{f.qualname}:value returned only on the accepting branch', r,
+                      'the return is reachable only through the true branch of `lo <= value <= hi`',
+                      f'`{src(r)}` is reached when the range comparisons are false: for NaN (the JSON token NaN is accepted by the decoder) every '
+                      'comparison is false, so NaN is returned as a valid value of the range', f)
